@@ -45,7 +45,7 @@ def run_case(case):
     B, T, unit = case["sch"]
     try:
         ds = _impl["Dataset"].from_raw_list(am.raw_dataset(case["D"]))
-        ss = _impl["SS"](core.scheme_float(B, T, unit))
+        ss = core.build_scheme(B, T, unit, case.get("schemeform", 0))
         if case.get("prevD"):
             # an earlier dataset (other shape, same flattened positions) served in the same process, same scheme
             try:
@@ -80,7 +80,7 @@ def run_case(case):
                 for j in range(mat.shape[1]):
                     x, y = am.elem(ds.mapping_id_elem[i]), am.elem(ds.mapping_id_elem[j])
                     for k in range(3):
-                        v, ex = core.to_units(mat[i][j][k], unit)
+                        v, ex = core.to_units(mat[i][j][k], unit, tol=0.0)      # dyadic penalties: bit-exact sums
                         exact = exact and ex
                         tab[x - 1][y - 1][k] = v
             return tab
@@ -130,7 +130,7 @@ def _cases(dss, schemes, namings, all_schemes):
     out = []
     for k, D in enumerate(dss):
         for s in (schemes if all_schemes else [schemes[k % len(schemes)]]):
-            out.append({"D": D, "naming": namings[k % len(namings)], "sch": list(s)})
+            out.append({"D": D, "naming": namings[k % len(namings)], "sch": list(s), "schemeform": k % 4})
     return out
 
 
